@@ -167,7 +167,9 @@ def r5(chk, ctx):
     chk.floor("C03.R5", len(pend), 1, "pending-return of the join")
     for h in holds:
         guards = enclosing_ifs(se, h, join.node)
-        ok_guard = len(guards) <= 1 and all(("Parallel" in norm(i.test) and "Map" in norm(i.test)) for i, arm in guards)
+        def _conj(t):
+            return sorted(norm(v) for v in (t.values if isinstance(t, ast.BoolOp) and isinstance(t.op, ast.And) else [t]))
+        ok_guard = len(guards) <= 1 and all(arm == "body" and _conj(i.test) == ["previous_state_type != 'Map'", "previous_state_type != 'Parallel'"] for i, arm in guards)
         chk.ob("C03.R5", "hold is guarded only by 'previous state is not a Parallel/Map'", ok_guard, [norm(i.test) for i, _ in guards],
                key="%s | hold under an extra guard" % join.qname, where=se.line(h),
                message="the id must be held for every non-fan-out terminal state")
@@ -289,7 +291,10 @@ def r7(chk, ctx):
 
 def run(chk, ctx):
     p = ctx.protocol()
-    proto_findings(chk, p, {"C03.R1", "C03.R1b", "C03.R2", "C18.R4"}, func_filter=lambda r: r["rule"] != "C18.R4" or True)
+    # C03.R1b (a second acknowledge of the handler's own id) is reported by the protocol but is NOT a violation: EventDispatcher.acknowledge
+    # looks the id up in unacknowledged_messages and swallows the KeyError, so a repeated acknowledge through the id table is a no-op (DESIGN 8.5 FA-11)
+    proto_findings(chk, p, {"C03.R1", "C03.R2", "C18.R4"}, func_filter=lambda r: r["rule"] != "C18.R4" or True)
+    _ack_is_idempotent(chk, ctx)
     chk.floor("C03.R1", len(p.entries), 16, "analysed handler entries")
     r3(chk, ctx)
     r3b(chk, ctx)
@@ -307,6 +312,20 @@ def run(chk, ctx):
     chk.assume("the broker redelivers unacknowledged messages (trusted)")
     chk.assume("engine-internal calls do not raise; exception edges come from the may-raise table of sa/flow.py")
     chk.assume("an uncaught exception in a timer/reply callback is not acknowledged by anybody (C18.R4 findings are therefore also C03 findings)")
+
+
+def _ack_is_idempotent(chk, ctx):
+    """the premise under which a repeated acknowledge(id) is harmless: the id-table acknowledge removes the entry and swallows a miss"""
+    ed = ctx.mod("event_dispatcher")
+    f = ed.func("EventDispatcher.acknowledge")
+    trys = [n for n in f.node.body if isinstance(n, ast.Try)]
+    ok = len(trys) == 1 and any(h.type is None or norm(h.type) in ("Exception", "KeyError", "(KeyError, Exception)") for h in trys[0].handlers)
+    if ok:
+        body = [norm(s) for s in trys[0].body]
+        ok = body == ["message = self.unacknowledged_messages[id]", "message.acknowledge(multiple=False)", "del self.unacknowledged_messages[id]"]
+    chk.ob("C03.R1b", "EventDispatcher.acknowledge(id): look up, acknowledge that delivery only, remove; a missing id is swallowed", ok, "",
+           key="EventDispatcher.acknowledge | id-table acknowledge is no longer lookup / ack(multiple=False) / delete inside a catch-all", where=f.where(),
+           message="handlers rely on acknowledge(id) acknowledging exactly one delivery once: without the removal a second call acknowledges the delivery twice, without the catch-all a repeated call raises in the handler")
 
 
 def r8(chk, ctx):
